@@ -8,7 +8,7 @@ props = [json.loads(l) for l in open(os.path.join(os.path.dirname(os.path.abspat
 checks, na = [], []
 for p in props:
     pid = p['id']
-    if pid in registry.PROPS:
+    if pid in registry.PROPS and (registry.PROPS[pid].get('verus') or registry.PROPS[pid].get('kani')):
         P = registry.PROPS[pid]
         checks.append({
             'property_id': pid,
@@ -24,7 +24,7 @@ for p in props:
                                             'mechanically extracted real functions; Kani complete/bounded harnesses)'),
         })
     else:
-        na.append({'property_id': pid, 'reason': registry.NOT_APPLICABLE.get(pid, 'not yet under contract')})
+        na.append({'property_id': pid, 'reason': registry.NOT_APPLICABLE.get(pid, 'no unit registered yet for this property in this revision of /verif (planned: DESIGN.md §5 %s)' % pid)})
 m = {
     'version': 1,
     'setup_cmd': 'python3 -c "import sys; sys.exit(0)"',
